@@ -89,6 +89,17 @@ def _on_signal(signum, frame):
     os._exit(128 + signum)
 
 
+def _child_after_fork():
+    # forked helpers (multiprocessing pool workers) must die at once when the pool terminates them: a python-level
+    # handler cannot run while the worker is blocked inside a C-level lock, and Pool.terminate() then waits for ever
+    for s in (signal.SIGTERM, signal.SIGINT, signal.SIGHUP):
+        try:
+            signal.signal(s, signal.SIG_DFL)
+        except Exception:
+            pass
+
+
+os.register_at_fork(after_in_child=_child_after_fork)
 atexit.register(_cleanup)
 for _s in (signal.SIGTERM, signal.SIGINT, signal.SIGHUP):
     try:
